@@ -2,7 +2,7 @@
 
 use super::{Error, Lint, Note};
 use crate::ast::Ast;
-use crate::grammar::{attributes, Attributable, Entity};
+use crate::grammar::{attributes, Attributable, Contained, Entities, Entity, NamedSymbol, Symbol};
 use crate::slice_file::{SliceFile, Span};
 use crate::slice_options::SliceOptions;
 
@@ -193,6 +193,25 @@ impl Diagnostics {
                 // If the diagnostic has a scope, check if it's affected by an `allow` attribute in that scope.
                 if let Some(scope) = diagnostic.scope() {
                     if let Ok(entity) = ast.find_element::<dyn Entity>(scope) {
+                        // A parameter and a return member of the same operation can share an identifier (and hence a
+                        // scope), in which case the lookup only finds one of them. So, we pick whichever of the two
+                        // this diagnostic actually lies within.
+                        let entity = match (entity.concrete_entity(), diagnostic.span()) {
+                            (Entities::Parameter(parameter), Some(span)) => {
+                                let operation = parameter.parent();
+                                let members = operation.parameters().into_iter().chain(operation.return_members());
+                                members
+                                    .filter(|member| member.identifier() == parameter.identifier())
+                                    .find(|member| {
+                                        let member_span = member.span();
+                                        member_span.file == span.file
+                                            && member_span.start <= span.start
+                                            && span.end <= member_span.end
+                                    })
+                                    .map_or(entity, |member| member as &dyn Entity)
+                            }
+                            _ => entity,
+                        };
                         if is_lint_allowed_by_attributes(entity, lint) {
                             diagnostic.level = DiagnosticLevel::Allowed;
                         }
